@@ -460,4 +460,68 @@ def rule_uniform_shortcut(P):
     return R
 
 
-RULES = [rule_level_sign, rule_twins, rule_eval_dispatch, rule_iter_advance, rule_fold_mirror, rule_uniform_shortcut]
+def rule_sparse_shrunk(P):
+    """the minterm builders create a node through newSetNode / newUnprimedNode / newPrimedNode(k, n): with a zero default that is a *sparse* unpacked node
+    of declared size n, and addToNode(node, z, …) fills slot z — and advances z — only when the edge is not the transparent one.  The declared size is
+    therefore an upper bound; what createReducedNode reads is `size` slots.  Every sparse path from the creation to createReducedNode must pass
+    node->shrink(z) (the collection builders do: `if (Cu->isSparse()) Cu->shrink(z)`).  The single-minterm builders did not (D23): a minterm whose value
+    is the forest's zero left one uninitialised slot in every node of its path"""
+    R = RuleResult("build.sparse-shrunk", "in the minterm builders (fbuilder_forest, fbuilder<OP>): every node created by newSetNode / newUnprimedNode / newPrimedNode and filled through addToNode reaches createReducedNode only through node->shrink(count) on the paths where it is sparse")
+    seen = set()
+    n = 0
+    for f in sorted(P.fns.values(), key=lambda f: (f["file"], f["line"], f["inst"])):
+        if not f.get("cfg") or f["file"] != "minterms.cc" or not re.search(r"fbuilder", f["q"]) or (f["file"], f["line"]) in seen:
+            continue
+        g = Graph(f)
+        made = {}
+        for k in g.nodes:
+            if k.kind == "ldef" and re.match(r"(new(Set|Unprimed|Primed)Node)\(", _nz(k.ev.get("rhs") or "")):
+                made.setdefault(k.ev["var"], []).append(k)
+        if not made:
+            continue
+        seen.add((f["file"], f["line"]))
+        short = base_name(f["q"]).replace(M, "")
+        for k in g.nodes:
+            if k.kind != "call" or not k.ev["q"].endswith("::createReducedNode") or not k.ev["args"]:
+                continue
+            U = _nz(k.ev["args"][0])
+            if U not in made:
+                continue
+            filled = [x for x in g.nodes if x.kind == "call" and x.ev["q"].endswith("::addToNode") and x.ev["args"] and _nz(x.ev["args"][0]) == U]
+            if not filled:
+                continue
+            n += 1
+            R.functions.add(f["inst"])
+            iid = "%s: `%s` shrunk to its fill count before createReducedNode" % (short, U)
+            bad = None
+            for c in made[U]:
+                R.paths += 1
+                # created on the arm where the default is not zero: the helpers return a full node of the level's size there
+                full = False
+                for b in g.nodes:
+                    if b.kind == "branch" and b.cond and len(b.succ) == 2 and _nz(b.cond["text"]).lstrip("!") == "default_is_zero":
+                        arms = [i for s_, i in b.succ if c.id in g.reach([s_], avoid=lambda x, b=b: x.id == b.id)]
+                        dominated = c.id not in g.reach([g.entry], avoid=lambda x, b=b: x.id == b.id)
+                        if dominated and arms == [0 if b.cond.get("neg") else 1]:
+                            full = True
+                if full:
+                    continue
+                pth = g.path(c.id, lambda x, k=k: x.id == k.id,
+                             avoid=lambda x, U=U, k=k: (x.kind == "call" and x.ev["q"].split("::")[-1] in ("shrink", "resize") and _nz(x.ev.get("recv") or "") == U)
+                             or (x.kind == "ldef" and x.ev["var"] == U and x.id != c.id),
+                             avoid_edge=lambda b, arm, U=U: b.kind == "branch" and b.cond and _nz(b.cond["text"]).lstrip("!") == U + "->isSparse()" and arm == (0 if b.cond.get("neg") else 1))
+                if pth:
+                    bad = (c, pth)
+                    break
+            if bad:
+                R.fail(iid, where(f, k.line), Finding(R.rule, f["file"], base_name(f["q"]), "reduce-unshrunk@" + str(sum(1 for x in g.nodes if x.kind == "call" and x.ev["q"].endswith("::createReducedNode") and x.line <= k.line)),
+                       "node `%s` is created with a declared sparse size and filled through addToNode, which skips transparent edges, but reaches createReducedNode without %s->shrink(count): when the edge added is the forest's zero the node keeps an uninitialised slot" % (U, U), k.line))
+            else:
+                R.ok(iid, where(f, k.line))
+    if n < 6:
+        raise AnalysisBroken("build.sparse-shrunk: only %d builder nodes reduced after addToNode found, expected ≥6" % n)
+    R.require_floor(6, "builder nodes reduced after addToNode")
+    return R
+
+
+RULES = [rule_level_sign, rule_twins, rule_eval_dispatch, rule_iter_advance, rule_fold_mirror, rule_uniform_shortcut, rule_sparse_shrunk]
